@@ -6,7 +6,8 @@ from ..runner import sut, expect, Fail
 from .c01 import resolve
 
 ID = 'C15'
-RULE = ('cases: a random molecule with >=1 acyclic C=C whose chosen substituents are saturated atoms (1-3 stereo '
+RULE = ('cases: a random molecule with >=1 C=C (acyclic, or in a macrocycle of 8-10 atoms and then sometimes written '
+        'as the ring-closure bond) whose chosen substituents are saturated atoms (1-3 stereo '
         'double bonds, ground truth cis/trans drawn per bond) and/or [C;x=R|S] labels on sp3 carbons; slash marks '
         'are derived from the ground truth by the OpenSMILES rule as a function of the writing direction chosen '
         'by the own renderer (independent of pysmiles). Variants of ONE molecule: single fragment, and 3 random '
@@ -95,12 +96,13 @@ def gen_stereo_mol(R, nunits, extra):
         m.add_bond(a, b, 2)
         if attach is not None:
             m.add_bond(attach, a, 1)
+        macro = (not share) and R.chance(0.15)
         if share:
             la = attach          # one atom is the marked substituent of two double bonds (skipped diene)
         else:
-            la = m.add_atom(lig_elem())
+            la = m.add_atom('C' if macro else lig_elem())
             m.add_bond(a, la, 1)
-        if R.chance(0.2):
+        if not macro and R.chance(0.2):
             # conjugated diene: the second double bond starts at the substituent position of the first;
             # the single bond between them carries one mark that serves both double bonds
             a2 = m.add_atom('C')
@@ -114,8 +116,18 @@ def gen_stereo_mol(R, nunits, extra):
             stereo.append(dict(a=a, b=b, la=la, lb=a2, rel=R.choice(['cis', 'trans'])))
             stereo.append(dict(a=a2, b=b2, la=b, lb=lb2, rel=R.choice(['cis', 'trans'])))
             return
-        lb = m.add_atom(lig_elem())
+        lb = m.add_atom('C' if macro else lig_elem())
         m.add_bond(b, lb, 1)
+        if macro:
+            # macrocycle: the two marked substituents are joined by a saturated chain, the stereo double
+            # bond lies in a ring of 8-10 atoms (and may be written as the ring-closure bond)
+            prev = la
+            for _ in range(R.randint(4, 6)):
+                x = m.add_atom('C')
+                m.add_bond(prev, x, 1)
+                prev = x
+            m.add_bond(prev, lb, 1)
+            m.macro = True
         protected.update((a, b, la, lb))
         ligands.update((la, lb))
         stereo.append(dict(a=a, b=b, la=la, lb=lb, rel=R.choice(['cis', 'trans'])))
@@ -229,9 +241,10 @@ def gen(R, tier):
                         slash[frozenset((x, anc))] = (x, -side)
                         second_marks.append(x)
         assert all(s['rel_v'] == s['rel'] for s in stereo)
-        text, info = molgen.build_cgsmiles(R, m, owner, kinds=('$', '><'), style=molgen.style_draw(R),
+        vfeats = set()
+        text, info = molgen.build_cgsmiles(R, m, owner, kinds=('$', '><'), style=molgen.style_draw(R), feats=vfeats,
                                            annot={i: 'x=%s' % c for i, c in chir.items()}, slash=slash)
-        if text is None:
+        if text is None or 'slash_on_ring_bond' in vfeats:
             continue
         # the reader (like pysmiles) keeps ONE mark per atom: the last one written next to it. For every
         # marked substituent the mark on the bond to its own double bond must therefore be the one the atom
@@ -271,6 +284,11 @@ def gen(R, tier):
         feats.add('conjugated_diene')
     if any(m.atoms[x]['element'] == 'H' for x in ligs):
         feats.add('explicit_hydrogen_substituent')
+    if getattr(m, 'macro', False):
+        feats.add('stereo_double_bond_in_macrocycle')
+        import re
+        if any(re.search(r'=(\d|%\d\d)', v['input']) for v in variants):
+            feats.add('double_bond_written_as_ring_closure')
     if dropped:
         feats.add('variant_dropped:conflicting_marks_on_shared_substituent')
     return dict(input=variants[-1]['input'], variants=variants, stereo=stereo, chir={str(k): v for k, v in chir.items()},
